@@ -349,6 +349,12 @@ Qed.
 
 (* ---------- exchangeKeys against a conforming script ---------- *)
 
+Lemma existsb_too_long l : existsb cookie_too_long l = negb (forallb cookie_fits l).
+Proof.
+  induction l as [|c l IH]; [reflexivity|]. cbn [existsb forallb]. rewrite IH, negb_andb. f_equal.
+  unfold cookie_too_long, cookie_fits, max_cookie_len. apply Z.ltb_antisym.
+Qed.
+
 Definition exporter_ok (ex : exporter) : Prop :=
   exists c2s s2c, ex exporter_label ctx_c2s key_len = Some c2s /\ ex exporter_label ctx_s2c key_len = Some s2c.
 
@@ -382,9 +388,11 @@ Proof.
   destruct (scan (delivered (sc_recs sc) (sc_cut sc)) acc0) as [res a].
   destruct res.
   - rewrite Hread. cbn [Z.eqb negb snd]. unfold export_keys. rewrite Hs2c, Hc2s. cbn [Z.eqb negb].
-    unfold algo_is_siv, has_cookie, set_c2s, set_s2c, apply_acc, d0, set_port, set_server, kzero, ntp_port_ip.
+    unfold algo_is_siv, has_cookie, cookies_fit, set_c2s, set_s2c, apply_acc, d0, set_port, set_server, kzero, ntp_port_ip.
     cbn [k_c2s k_s2c k_server k_port k_cookies k_algo app].
     destruct (a_cookies a) as [|c cs]; [rewrite andb_false_r; cbn; unfold e_nocookies; lia|].
+    rewrite andb_true_r, existsb_too_long.
+    destruct (forallb cookie_fits (c :: cs)); cbn [negb]; [|rewrite andb_false_r; cbn; unfold e_cookielen; lia].
     rewrite andb_true_r. destruct (a_algo a) as [v|]; cbn [opt_z].
     + unfold aes_siv_cmac_256. destruct (v =? 15) eqn:Ev.
       * apply Z.eqb_eq in Ev. subst v. cbn. reflexivity.
@@ -404,7 +412,8 @@ Lemma exchange_success_facts ex p d : exchange_keys ex p = (d, 0) ->
   p_up p = true /\
   (exists proto, tls_negotiate [alpn_ntske] (p_alpn p) = HsOk proto /\ bytes_eqb proto alpn_ntske = true) /\
   k_cookies d <> [] /\ k_algo d = 15 /\
-  ex exporter_label ctx_c2s key_len = Some (k_c2s d) /\ ex exporter_label ctx_s2c key_len = Some (k_s2c d).
+  ex exporter_label ctx_c2s key_len = Some (k_c2s d) /\ ex exporter_label ctx_s2c key_len = Some (k_s2c d) /\
+  forallb cookie_fits (k_cookies d) = true.
 Proof.
   unfold exchange_keys, dial_tls. destruct (p_up p); [|bad_pair].
   destruct (tls_negotiate [alpn_ntske] (p_alpn p)) as [|proto]; [bad_pair|].
@@ -416,9 +425,11 @@ Proof.
   destruct (ex exporter_label ctx_c2s key_len) as [c2s|] eqn:Ec; [|bad_pair].
   cbn [Z.eqb negb].
   destruct (k_cookies (set_c2s (set_s2c d1 s2c) c2s)) as [|c cs] eqn:Ek; [bad_pair|].
+  destruct (existsb cookie_too_long (c :: cs)) eqn:Et; [bad_pair|].
   destruct (k_algo (set_c2s (set_s2c d1 s2c) c2s) =? aes_siv_cmac_256) eqn:Ea; cbn [negb]; [|bad_pair].
   intro H. inversion H; subst. split; [reflexivity|]. split; [exists proto; split; [reflexivity|exact Ep]|].
-  split; [rewrite Ek; discriminate|]. split; [apply Z.eqb_eq in Ea; exact Ea|]. split; reflexivity.
+  split; [rewrite Ek; discriminate|]. split; [apply Z.eqb_eq in Ea; exact Ea|]. split; [reflexivity|]. split; [reflexivity|].
+  rewrite Ek. rewrite existsb_too_long in Et. apply negb_false_iff in Et. exact Et.
 Qed.
 
 (* ---------- the oracle accepts every history of the model ---------- *)
@@ -457,7 +468,7 @@ Proof.
     destruct (exchange_keys ex (peer_of_script sc)) as [d e] eqn:Hx.
     destruct (e =? 0) eqn:He.
     + apply Z.eqb_eq in He. subst e.
-      destruct (exchange_success_facts ex _ d Hx) as [Hup [[proto [Hneg Hproto]] [Hcne [Halgo [Hc2s Hs2c]]]]].
+      destruct (exchange_success_facts ex _ d Hx) as [Hup [[proto [Hneg Hproto]] [Hcne [Halgo [Hc2s [Hs2c Hfits]]]]]].
       cbn [p_up peer_of_script] in Hup. cbn [p_alpn peer_of_script] in Hneg.
       assert (Hm1 : (sc_mode sc =? 1) = false).
       { apply Z.eqb_eq in Hup. rewrite Hup. reflexivity. }
@@ -467,7 +478,7 @@ Proof.
       rewrite ?Hm1, ?Hup.
       cbn [snd fst o_conns o_hs_ok o_negotiated o_peer_c2s o_peer_s2c o_err o_data Z.eqb andb].
       change (bytes_eqb proto ntske1) with (bytes_eqb proto alpn_ntske). rewrite Hproto.
-      rewrite (peer_key_c2s _ _ Hc2s), (peer_key_s2c _ _ Hs2c), !bytes_eqb_refl, Halgo.
+      rewrite (peer_key_c2s _ _ Hc2s), (peer_key_s2c _ _ Hs2c), !bytes_eqb_refl, Halgo, Hfits.
       cbn [andb Z.eqb implb].
       destruct (k_cookies d) as [|c0 cs0] eqn:Hcd; [congruence|].
       destruct (sc_strict sc) eqn:Hstrict.
@@ -512,9 +523,14 @@ Proof.
     intros _. rewrite <- I1, <- I2, <- I3, <- I4. repeat split; try reflexivity. exact I5.
 Qed.
 
+Lemma too_long_negfits c : cookie_too_long c = negb (cookie_fits c).
+Proof. unfold cookie_too_long, cookie_fits, max_cookie_len. apply Z.ltb_antisym. Qed.
+
 Lemma store_step st ost c : Rel st ost -> Rel (store_cookie st c) (store_ok ost c).
 Proof.
-  intros [Hf|[Hp [Hne Hinfo]]]; unfold store_ok.
+  intro HR. unfold store_cookie, store_ok. rewrite too_long_negfits.
+  destruct (negb (cookie_fits c)); [exact HR|].
+  destruct HR as [Hf|[Hp [Hne Hinfo]]].
   - destruct (os_last_ok ost); left; [exact Hf|reflexivity].
   - destruct (os_last_ok ost) eqn:Hl; [|left; reflexivity].
     right. cbn. split; [rewrite Hp; reflexivity|]. split; [reflexivity|]. intros _. exact (Hinfo eq_refl).
@@ -678,7 +694,7 @@ Lemma keys_agree ex p dC dS dS' : exchange_keys ex p = (dC, 0) -> export_keys ex
   ex exporter_label ctx_c2s key_len = Some (k_c2s dC) /\ ex exporter_label ctx_s2c key_len = Some (k_s2c dC) /\
   ctx_c2s <> ctx_s2c.
 Proof.
-  intros Hx Hs. destruct (exchange_success_facts ex p dC Hx) as [_ [_ [_ [_ [Hc2s Hs2c]]]]].
+  intros Hx Hs. destruct (exchange_success_facts ex p dC Hx) as [_ [_ [_ [_ [Hc2s [Hs2c _]]]]]].
   unfold export_keys in Hs. rewrite Hs2c, Hc2s in Hs. inversion Hs; subst. cbn.
   repeat split; try assumption. discriminate.
 Qed.
@@ -732,4 +748,101 @@ Proof.
     + inversion H; subst. simpl in Herr. congruence.
     + inversion H; subst. split; reflexivity.
   - inversion H; subst. simpl in Herr. congruence.
+Qed.
+
+(* ---------- the message of the project's own key-exchange server ---------- *)
+
+Lemma pack_wire t c body : 0 <= t < 32768 -> Z.of_nat (length body) < 65536 ->
+  pack t c body = wire_rec {| r_type := t; r_crit := c; r_body := body |}.
+Proof.
+  intros Ht Hn. unfold pack, hdr, wire_rec. cbn [r_type r_crit r_body app]. f_equal; [|f_equal; [|f_equal]].
+  - destruct c; lia.
+  - destruct c; lia.
+  - f_equal. lia.
+Qed.
+
+Lemma delivered_all rs : forall k, (length (wire rs) <= k)%nat -> delivered rs k = rs.
+Proof.
+  induction rs as [|r rs IH]; intros k Hk; [reflexivity|].
+  unfold wire in Hk. cbn [flat_map] in Hk. fold (wire rs) in Hk. rewrite app_length in Hk.
+  cbn [delivered]. replace (length (wire_rec r) <=? k)%nat with true by (symmetry; apply Nat.leb_le; lia).
+  f_equal. apply IH. lia.
+Qed.
+
+Lemma enc16_bytes v : forallb byte_b (enc16 v) = true.
+Proof.
+  unfold enc16, byte_b. cbn [forallb]. rewrite !andb_true_iff. repeat split;
+    try (apply Z.leb_le; lia); try (apply Z.ltb_lt; lia).
+Qed.
+
+Definition own_recs (mk_cookie : nat -> bytes) (ip : bytes) (port : Z) : list krec :=
+  [ {| r_type := 1; r_crit := true; r_body := enc16 0 |};
+    {| r_type := 4; r_crit := true; r_body := enc16 15 |};
+    {| r_type := 6; r_crit := false; r_body := ip |};
+    {| r_type := 7; r_crit := false; r_body := enc16 port |} ]
+  ++ map (fun i => {| r_type := 5; r_crit := false; r_body := mk_cookie i |}) (seq 0 8)
+  ++ [ {| r_type := 0; r_crit := true; r_body := [] |} ].
+
+Definition body_ok (b : bytes) : Prop := forallb byte_b b = true /\ Z.of_nat (length b) < 65536.
+
+Lemma canonical_var t c body : body_ok body -> (t = 5 \/ t = 6) ->
+  rec_canonical {| r_type := t; r_crit := c; r_body := body |} = true.
+Proof.
+  intros [Hb Hl] Ht. unfold rec_canonical. cbn [r_type r_body]. rewrite Hb.
+  replace (Z.of_nat (length body) <? 65536) with true by (symmetry; apply Z.ltb_lt; exact Hl).
+  destruct Ht; subst t; reflexivity.
+Qed.
+
+Lemma canonical_fix t c v : (t = 1 \/ t = 4 \/ t = 7) ->
+  rec_canonical {| r_type := t; r_crit := c; r_body := enc16 v |} = true.
+Proof.
+  intro Ht. unfold rec_canonical. cbn [r_type r_body]. rewrite enc16_bytes.
+  destruct Ht as [H|[H|H]]; subst t; reflexivity.
+Qed.
+
+Lemma server_msg_wire mk ip port : body_ok ip -> (forall i, body_ok (mk i)) ->
+  server_msg mk ip port = wire (own_recs mk ip port).
+Proof.
+  intros Hip Hmk. unfold server_msg, own_recs, wire. cbn [seq flat_map map app].
+  unfold rec_nextproto, rec_aead, rec_server, rec_port, rec_cookie, rec_eom.
+  rewrite !pack_wire; try lia; try (cbn; lia); try (apply Hip); try (apply (Hmk _)).
+  rewrite <- !app_assoc. reflexivity.
+Qed.
+
+Lemma own_recs_strict mk ip port : body_ok ip -> (forall i, body_ok (mk i)) ->
+  forallb rec_canonical (own_recs mk ip port) = true.
+Proof.
+  intros Hip Hmk. unfold own_recs. cbn [seq map app forallb].
+  rewrite !canonical_fix by tauto. rewrite !canonical_var by (try apply Hip; try apply Hmk; tauto).
+  reflexivity.
+Qed.
+
+Theorem own_server_exchange ex mk ip port host : exporter_ok ex ->
+  body_ok ip -> (forall i, body_ok (mk i)) -> (forall i, Z.of_nat (length (mk i)) <= 896) -> 0 <= port < 65536 ->
+  exists c2s s2c,
+    ex exporter_label ctx_c2s key_len = Some c2s /\ ex exporter_label ctx_s2c key_len = Some s2c /\
+    exchange_keys ex {| p_up := true; p_alpn := [alpn_ntske]; p_host := host; p_stream := server_msg mk ip port |}
+    = ({| k_c2s := c2s; k_s2c := s2c; k_server := ip; k_port := port;
+          k_cookies := map mk (seq 0 8); k_algo := 15 |}, 0).
+Proof.
+  intros Hex Hip Hmk Hfit Hport.
+  set (rs := own_recs mk ip port).
+  set (sc := {| sc_mode := 0; sc_alpn := [alpn_ntske]; sc_recs := rs; sc_tail := [];
+                sc_cut := length (wire rs); sc_host := host |}).
+  assert (Hstrict : sc_strict sc = true).
+  { unfold sc_strict, sc. cbn [sc_recs sc_tail]. unfold rs. rewrite own_recs_strict by assumption. reflexivity. }
+  assert (Hpeer : peer_of_script sc = {| p_up := true; p_alpn := [alpn_ntske]; p_host := host; p_stream := server_msg mk ip port |}).
+  { unfold peer_of_script, script_stream, sc. cbn [sc_mode sc_alpn sc_host sc_recs sc_tail sc_cut].
+    rewrite app_nil_r, firstn_all. unfold rs. rewrite <- server_msg_wire by assumption. reflexivity. }
+  pose proof (exchange_strict ex sc Hstrict Hex) as H. rewrite Hpeer in H.
+  assert (Hdel : delivered rs (length (wire rs)) = rs) by (apply delivered_all; lia).
+  assert (Hacc : alpn_agreed sc && stream_accepted (sc_recs sc) (sc_cut sc) = true).
+  { unfold stream_accepted, sc. cbn [sc_recs sc_cut]. rewrite Hdel.
+    unfold rs, own_recs. cbn [seq map app scan r_type r_crit r_body Z.eqb Pos.eqb acc0 a_algo a_server a_port a_cookies].
+    unfold algo_is_siv, has_cookie, cookies_fit. cbn [a_algo a_cookies app forallb]. unfold cookie_fits.
+    repeat rewrite (proj2 (Z.leb_le _ _) (Hfit _)). reflexivity. }
+  rewrite Hacc in H. destruct Hex as [c2s [s2c [Hc Hs]]]. exists c2s, s2c. split; [exact Hc|]. split; [exact Hs|].
+  rewrite H. unfold expected_data, scanned, sc. cbn [sc_recs sc_cut sc_host]. rewrite Hdel, Hc, Hs.
+  unfold rs, own_recs. cbn [seq map app scan r_type r_crit r_body Z.eqb Pos.eqb acc0 a_algo a_server a_port a_cookies snd opt_bytes opt_z].
+  f_equal. f_equal. unfold body16, enc16. cbn [r_body nth]. lia.
 Qed.
